@@ -255,8 +255,12 @@ class Ctx:
                     and cls is not None and cls == f["match"]:
                 self.known_hits.append((f, v))
                 return
-        k = sum(1 for o in self.violations if o.get("cls") == cls and o.get("lane") == lane)
-        if k < 3 and len([o for o in self.violations if "replay" in o]) < 40:
+        self._vcount = getattr(self, "_vcount", {})
+        k = self._vcount.get((lane, cls), 0)
+        self._vcount[(lane, cls)] = k + 1
+        self._nreplay = getattr(self, "_nreplay", 0)
+        if k < 3 and self._nreplay < 40:
+            self._nreplay += 1
             h = hashlib.sha1(json.dumps([lane, what, case], sort_keys=True, default=str).encode()).hexdigest()[:12]
             path = os.path.join(VERIF, "replays", "%s-%s.json" % (self.pid, h))
             with open(path, "w") as f:
@@ -266,7 +270,9 @@ class Ctx:
             print("  lane=%s: %s" % (lane, what), flush=True)
         elif k == 3:
             print("  (further violations of class %r in lane %s are counted, not printed)" % (cls, lane), flush=True)
-        self.violations.append(v)
+        if len(self.violations) < 5000:
+            self.violations.append(v)
+        self.nviol = getattr(self, "nviol", 0) + 1
 
     def negative_control(self, name, rejected):
         self.cov["negative_controls"].append(dict(name=name, rejected=bool(rejected)))
@@ -289,7 +295,7 @@ class Ctx:
             cov["samples"] = [{"note": "no sample recorded"}]
         ev = dict(property_id=self.pid, tier=self.tier, seed=self.seed, level=level, coverage=cov,
                   assumptions=self.assumptions, wall_s=round(time.time() - self.t0, 2),
-                  violations=len(self.violations))
+                  violations=getattr(self, "nviol", 0))
         os.makedirs(os.path.join(VERIF, "evidence"), exist_ok=True)
         with open(os.path.join(VERIF, "evidence", self.pid + ".json"), "w") as f:
             json.dump(ev, f, indent=1, default=str)
